@@ -1022,6 +1022,12 @@ def run(chk):
     chk.trusted_base = common.BASE_TRUST + [
         "hand model coq/Rt/RtConcDefs.v of the st protocol, the process fields and the per-thread state of src/rt/ovni.c; tied by a static "
         "access-table/symbol cross-check (fail closed) and by differential runs of the real library against the extracted model",
+        "translator unit translate/units/rtconc.py (own walk of the clang JSON AST, no stage-C core): ovni_proc_init/proc_fini/thread_init/"
+        "thread_free/thread_isready and the functions they reach that touch rproc are rendered whole, the process-state preamble of every other "
+        "exported function; atomic_compare_exchange_strong/atomic_load/atomic_store on rproc.st and every read/write of a plain rproc field become "
+        "shared actions of the trace monad coq/Rt/RtConcPre.v (read/write of an array field passed by address decided by the const-ness of the "
+        "callee's parameter; accesses inside the arguments of die() not emitted), everything else is an opaque step or an opaque condition; "
+        "the table function -> call kind is hand-written in coq/Proofs/RtConcGenProofs.v (its length is checked against the generated list)",
         "sequentially consistent atomics (the code uses the default memory order); the C11 memory model itself is not formalised",
         "ThreadSanitizer (clang 14) as the sampler for C-level data races, glibc pthreads, the interposed abort() of harness/rtconc_drv.c",
         "extraction (ExtrOcamlBasic only) + OCaml 4.13 + oracle/rtconc_drv.ml",
@@ -1035,7 +1041,9 @@ def run(chk):
     chk.notes.append("proof (partial): all interleavings are covered in the model; C-level data races and weak-memory effects are "
                      "only sampled (TSan) on the driver's executions")
     try:
-        chk.prove()
+        # unit rtconc: the process-state skeleton of the API functions regenerated from the clang AST and proved equal to the
+        # model's call expansions (C11_call_expansions_from_source); the regex cross-check below stays (symbol tables, field sets)
+        chk.translate_and_prove(["rtconc"])
     except Exception as e:       # no property file yet / make failure
         chk.proof_broken = {"kind": "proof-obligation", "failure": repr(e)[:400]}
 
